@@ -144,7 +144,11 @@ CHECKS["C15"] = dict(
          "instance-method field is the library's ValidationError; its path is the owning configuration's path joined with the key (plus "
          "[key] for dict entries); non-map values for a sub-configuration slot name the slot; dotted assignment descends with the joined "
          "path. Correspondence: rejections on every route (dotted, chained attribute, load_tree, documents in five formats, constructor "
-         "keywords, include pre-pass) with exception class and ref_path compared to the model and checked to resolve in the schema.",
+         "keywords, include pre-pass) with exception class and ref_path compared to the model and checked to resolve in the schema."
+         " Continuation (Props/C15b.lean): the item index an error names, over whole histories of list operations — a model of the items' "
+         "back-references (list objects by identity, derivations, assignment of derived lists, loads) in which every item of the held list points at "
+         "the held list after every history (run_inv), hence the named index is the held index (index_right_after_any_history); the code before F50 "
+         "is refuted by a four-step history. The links stream compares real histories with this model step by step.",
     note=CFG_NOTE + " Unknown keys on non-dynamic configurations raise AttributeError (not a declared field). Messages are not compared.",
     technique="Lean 4 proof (case analysis over the wrapped regions of the operation model) + model/implementation correspondence",
     design="6 C15")
